@@ -7,6 +7,7 @@ import (
 	"fmt"
 	"io"
 	"math/big"
+	"os"
 	"os/exec"
 	"strings"
 	"time"
@@ -39,6 +40,9 @@ type solver struct {
 	declared map[string]bool // variables / UFs declared in current scope
 	declVars []*Term         // declared variables (in order) for model extraction
 	stats    solverStats
+	isZ3     bool
+	override int      // per-query timeout override (ms), 0 = none
+	recent   []string // last flushed chunks (diagnostics, SYMGO_SMTFAIL)
 	sawError bool
 	failed   bool   // an error line or a dead process since the last clearFailed: the current path must be redone
 	lastErr  string // first error text seen (diagnostics)
@@ -80,17 +84,24 @@ func (s *solver) preamble() {
 	s.send("(set-option :print-success false)")
 	if strings.Contains(s.bin[0], "z3") {
 		s.send("(set-option :global-decls true)")
-		s.send(fmt.Sprintf("(set-option :timeout %d)", s.timeout))
+		// no global timeout: z3 4.8.12 applies it to push/assert as well and
+		// answers a slow push with (error "push canceled"), after which its
+		// scope stack no longer matches ours. The timeout is set around each
+		// check-sat instead.
+		s.isZ3 = true
 	} else {
 		s.send("(set-option :global-declarations true)")
 		s.send("(set-logic ALL)")
 	}
 }
 
-// setTimeout changes the per-command timeout of the running process (z3 only).
+// setTimeout overrides the per-query timeout until it is called again with
+// the regular value (z3 only).
 func (s *solver) setTimeout(ms int) {
-	if strings.Contains(s.bin[0], "z3") {
-		s.send(fmt.Sprintf("(set-option :timeout %d)", ms))
+	if ms == s.timeout {
+		s.override = 0
+	} else {
+		s.override = ms
 	}
 }
 
@@ -118,6 +129,12 @@ func (s *solver) send(line string) {
 func (s *solver) flush() {
 	if s.buf.Len() == 0 {
 		return
+	}
+	if os.Getenv("SYMGO_SMTFAIL") != "" {
+		s.recent = append(s.recent, s.buf.String())
+		if len(s.recent) > 400 {
+			s.recent = s.recent[len(s.recent)-400:]
+		}
 	}
 	if s.log != nil {
 		io.WriteString(s.log, s.buf.String())
@@ -230,7 +247,17 @@ func (s *solver) check(extra *Term) satResult {
 		s.send("(push 1)")
 		s.send("(assert " + r + ")")
 	}
-	s.send("(check-sat)")
+	if s.isZ3 {
+		t := s.timeout
+		if s.override > 0 {
+			t = s.override
+		}
+		s.send(fmt.Sprintf("(set-option :timeout %d)", t))
+		s.send("(check-sat)")
+		s.send("(set-option :timeout 4294967295)")
+	} else {
+		s.send("(check-sat)")
+	}
 	s.flush()
 	res := rUnknown
 	for {
@@ -257,6 +284,9 @@ func (s *solver) check(extra *Term) satResult {
 			s.failed = true
 			if s.lastErr == "" {
 				s.lastErr = line
+				if p := os.Getenv("SYMGO_SMTFAIL"); p != "" {
+					os.WriteFile(fmt.Sprintf("%s.%d.%d.smt2", p, os.Getpid(), s.stats.errors), []byte(strings.Join(s.recent, "")+"\n; ERROR: "+line+"\n"), 0o644)
+				}
 			}
 			s.stats.errors++
 			continue
